@@ -32,3 +32,93 @@ Fixpoint obs_run (w : world) (xs : list xevent) : list oline :=
       let (w1, outs) := step w e in
       map OR outs ++ status_lines w1 e ++ obs_run w1 t
   end.
+
+(* ---- concurrent windows (the RUN / PRUN lines of a trace) ----------------- *)
+From Coq Require Import ZArith.
+From MC Require Import Model.Memc Model.Conc Model.PolConc.
+
+(* an operation's answer as the runners print it *)
+Inductive ores :=
+| AHit (v : bytes) (flags cas : N)
+| AErr (code : N)
+| AOk (cas : N)
+| ADone
+| AFuel.
+
+Definition show_opres (r : opres) : ores :=
+  match r with
+  | OGetR (ROk r) => AHit (r_val r) (r_flags r) (r_cas r)
+  | OGetR (RErr e) => AErr (cerr_code e)
+  | OSetR (ROk c) => AOk c
+  | OSetR (RErr e) => AErr (cerr_code e)
+  | ODelR (ROk _) => ADone
+  | ODelR (RErr e) => AErr (cerr_code e)
+  end.
+
+Definition show_pores (r : pores) : ores :=
+  match r with
+  | PGetR (ROk r) => AHit (r_val r) (r_flags r) (r_cas r)
+  | PGetR (RErr e) => AErr (cerr_code e)
+  | PSetR (ROk c) => AOk c
+  | PSetR (RErr e) => AErr (cerr_code e)
+  | PDelR (ROk _) => ADone
+  | PDelR (RErr e) => AErr (cerr_code e)
+  | PFlushR => ADone
+  | PFuel => AFuel
+  end.
+
+(* the window on the plain store: answers per client, then the world it leaves *)
+Definition conc_window (w : world) (opss : list (list mop)) (sched : list nat) : list (list ores) * world :=
+  let st := w_store w in
+  let '(ts, sh) := run_sched (s_now st) (mprog_of (s_now st)) sched (map new_thread opss)
+                     (mkShared (s_mem st) (s_cas st)) in
+  (map (fun t => map show_opres (th_done t)) ts,
+   mkWorld (w_limit w) (w_conns w)
+     (mkStore (sh_mem sh) (sh_cas sh) (s_now st) (s_limit st) (s_usage st) (s_oracle st))).
+
+(* the window on the store behind the eviction policy; the usage counter shows as
+   the u64 it is in the implementation *)
+Definition usage_u64 (z : Z) : N :=
+  match z with
+  | Zneg _ => two64 - Z.to_N (Z.opp z)
+  | _ => Z.to_N z
+  end.
+
+Definition pol_window (w : world) (opss : list (list pop)) (scans : list (list bytes)) (sched : list nat)
+  : list (list ores) * world :=
+  let st := w_store w in
+  let limit := match s_limit st with Some l => Z.of_N l | None => 0%Z end in
+  let '(ts, sh) := prun_sched (s_now st) limit sched
+                     (map (fun ops => new_gthread (list_client ops)) opss)
+                     (mkP (s_mem st) (s_cas st) (Z.of_N (s_usage st)) scans) in
+  (map (fun t => map show_pores (g_done t)) ts,
+   mkWorld (w_limit w) (w_conns w)
+     (mkStore (p_mem sh) (p_cas sh) (s_now st) (s_limit st) (usage_u64 (p_usage sh)) (s_oracle st))).
+
+Inductive yevent :=
+| YEv (e : event)
+| YDump
+| YRun (opss : list (list mop)) (sched : list nat)
+| YPRun (opss : list (list pop)) (scans : list (list bytes)) (sched : list nat).
+
+Inductive yline :=
+| YL (l : oline)
+| YT (i : nat) (rs : list ores).
+
+Fixpoint number {A} (i : nat) (l : list A) : list (nat * A) :=
+  match l with [] => [] | x :: t => (i, x) :: number (S i) t end.
+
+Fixpoint obs_run2 (w : world) (xs : list yevent) : list yline :=
+  match xs with
+  | [] => []
+  | YDump :: t => map YL (dump_lines w) ++ obs_run2 w t
+  | YEv e :: t =>
+      let (w1, outs) := step w e in
+      map (fun o => YL (OR o)) outs ++ map YL (status_lines w1 e) ++ obs_run2 w1 t
+  | YRun opss sched :: t =>
+      let (rs, w1) := conc_window w opss sched in
+      map (fun ir => YT (fst ir) (snd ir)) (number 0 rs) ++ obs_run2 w1 t
+  | YPRun opss scans sched :: t =>
+      let (rs, w1) := pol_window w opss scans sched in
+      map (fun ir => YT (fst ir) (snd ir)) (number 0 rs) ++ obs_run2 w1 t
+  end.
